@@ -28,7 +28,7 @@ ASSUMPTIONS = [
     "position enumerator vlib.schemas.walk mirrors the positions statham interprets as schemas (literals are not positions)",
     "pure-alias $ref loops are not generated (json_ref_dict rejects them itself)",
 ]
-BUDGET = {"quick": 300, "thorough": 4000}
+BUDGET = {"quick": 550, "thorough": 5000}
 UNSUPPORTED = ["if", "then", "else", "$defs", "unevaluatedItems", "unevaluatedProperties"]
 WRAPPERS = ["properties", "items", "tuple", "additionalItems", "contains", "patternProperties",
             "additionalProperties", "propertyNames", "dependencies", "anyOf", "oneOf", "allOf", "not"]
